@@ -5,6 +5,10 @@ from harness.legs import cfg_text, gen_traces, leg_m, leg_mutant, leg_r, leg_t_g
 from props.metrics_common import MetricsDriver, gen_trace, trace_kw
 
 SPEC = "Metrics"
+# no optimised pass: without assertions a record made after the scope completed is no longer refused (the refusal IS an
+# assertion caught by the context) - it lands in the completed scope.  The property only says that recording never raises,
+# which holds either way; the specification describes the behaviour with assertions, as the tests run it.
+OPT_PASS = False
 MANIFEST = dict(
     text="Metrics.tla with Record(t, m): the record lands in the recording task's current scope only (action property "
          "Attribution), values are sequences of record ids so that order is visible (FoldOrder), the merged view "
@@ -19,7 +23,7 @@ MANIFEST = dict(
 INVS = ["TypeOK", "CbAtMostOnce", "CbAfterSubtree", "ExitNeverFails", "FoldOrder"]
 PROPS = ["Attribution", "CompletedStable"]
 INTERNAL = ["RunCb", "Finish"]
-MT = ["Cat", "Last", "Sum", "Boom", "Same"]
+MT = ["Cat", "Last", "Sum", "Boom", "Same", "Mix"]
 
 
 def run(rep, work, tier, seed):
@@ -52,6 +56,11 @@ def run(rep, work, tier, seed):
     # a metric type whose merge function answers with another class than the one recorded (a subclass folded into its base)
     poly = dict(NTasks=1, N=2, MaxOps=6, MaxRec=3, MaxT=0, MTypes=["CatSub", "Last"], Kinds=["s"], Prep=False, Threads=False, Bug="none")
     leg_r(rep, work, SPEC, f"poly_conf_{tier}", cfg_text(poly, invariants=INVS), lambda: MetricsDriver(["CatSub", "Last"]),
+          internal=INTERNAL, world=True)
+    # a merge function that is NOT associative, the same metric type at three levels of nesting: the grouping of the merged
+    # view (each nested scope's own merged view is folded in as one value) shows
+    mix = dict(NTasks=1, N=3, MaxOps=7, MaxRec=3, MaxT=0, MTypes=["Mix"], Kinds=["s"], Prep=False, Threads=False, Bug="none")
+    leg_r(rep, work, SPEC, f"mix_conf_{tier}", cfg_text(mix, invariants=INVS), lambda: MetricsDriver(["Mix"]),
           internal=INTERNAL, world=True)
     # leg T: random programs over 4 tasks / 8 scopes recorded from the real library, validated by a trace module
     # generated from Metrics.tla (callbacks run as silent internal steps between the logged events)
